@@ -1,4 +1,5 @@
-(* Line-oriented driver around the extracted model.
+(* Helpers shared by the driver plug-ins (drv_*.ml) + the command registry.
+   Line-oriented driver around the extracted model.
    request :  <cmd> <args...>       code points are decimal integers separated by ','
    reply   :  one line *)
 open Sqlmodel
@@ -65,33 +66,8 @@ let split_at n l =
 
 let last_opt l = match List.rev l with [] -> None | x :: _ -> Some x
 
-let handle line =
-  match String.split_on_char ' ' line with
-  | ["lex"; t] ->
-      (match cur_lex (parse_text t) with
-       | Ok toks -> "OK " ^ String.concat "|" (List.map tok_str toks)
-       | Err e -> "ERR " ^ exn_name e)
-  | ["splitstream"; t] ->
-      (match cur_split_stream (parse_text t) with
-       | Ok stmts -> "OK " ^ String.concat "||" (List.map (fun st -> String.concat "|" (List.map tok_str st)) stmts)
-       | Err e -> "ERR " ^ exn_name e)
-  | ["parse"; k; t] ->
-      let r = if k = "all" then cur_parse (parse_text t) else cur_parse_upto (nat_of_int (int_of_string k)) (parse_text t) in
-      (match r with
-       | Ok stmts -> "OK " ^ nodes_str stmts
-       | Err e -> "ERR " ^ exn_name e)
-  | ["rmatch"; i; pos; t] ->
-      let txt = parse_text t in
-      let (before, after) = split_at (int_of_string pos) txt in
-      (match cur_rmatch (nat_of_int (int_of_string i)) { prev = last_opt before; rest = after } with
-       | Some k -> "OK " ^ string_of_int (int_of_nat k)
-       | None -> "OK None")
-  | _ -> "BAD " ^ line
 
-let () =
-  try
-    while true do
-      let line = input_line stdin in
-      print_string (handle line); print_newline ()
-    done
-  with End_of_file -> ()
+(* command registry: each drv_*.ml registers its commands at module initialisation *)
+let handlers : (string, string list -> string) Hashtbl.t = Hashtbl.create 64
+let register name f = Hashtbl.replace handlers name f
+let res_str f = function Ok v -> "OK " ^ f v | Err e -> "ERR " ^ exn_name e
